@@ -26,6 +26,9 @@ import (
 
 type c11Case struct {
 	Tables [][]amlObj `json:"tables"`
+	// OneParser: all tables are loaded through one Parser (as the package's own test loads
+	// DSDT and SSDT); otherwise each table gets a new Parser on the same tree
+	OneParser bool `json:"oneparser,omitempty"`
 }
 
 // ---------------------------------------------------------------------------
@@ -569,6 +572,7 @@ func c11CheckExpr(tree *ObjectTree, o *Object, e *amlExpr, paths map[uint32]stri
 type c11Stats struct {
 	scopeDirectives, relocated, callsWithArgs, forwardCalls, nestedCalls, nonMinimalPkg, deferred int
 	tables, hugePkg, miscStmts, miscExprs, methodDecls, rootScopes, pkgRefs, shadowed          int
+	deepChain                                                                                   int // levels of the chain of nested devices, if any
 }
 
 func c11Run(c c11Case) (fail *vlib.Failure, errLog string) {
@@ -577,6 +581,10 @@ func c11Run(c c11Case) (fail *vlib.Failure, errLog string) {
 	tree.CreateDefaultScopes(42)
 	var keep [][]byte
 	var errs bytes.Buffer
+	var shared *Parser
+	if c.OneParser {
+		shared = NewParser(&errs, tree)
+	}
 	for ti, objs := range c.Tables {
 		sig := "DSDT"
 		if ti > 0 {
@@ -586,7 +594,11 @@ func c11Run(c c11Case) (fail *vlib.Failure, errLog string) {
 		keep = append(keep, buf)
 		var perr error
 		pc := vlib.Catch(func() {
-			if e := NewParser(&errs, tree).ParseAML(uint8(ti+1), sig, hdr); e != nil {
+			p := shared
+			if p == nil {
+				p = NewParser(&errs, tree)
+			}
+			if e := p.ParseAML(uint8(ti+1), sig, hdr); e != nil {
 				perr = e
 			}
 		})
